@@ -239,7 +239,7 @@ CLAIMED.update({
              '{0, .05, .1, .25} s (reader timeouts in between) for 7 payload kinds incl. header look-alikes and a 200 KiB blob, '
              '1-2 records. Server: real _handle_connection with 3 requests x every handler-duration vector x failing handler x '
              'backlog. Client: real SocketClient with in-memory connections to a scripted server answering in every order, 2 '
-             'requester threads + stream + a timed-out request with ids from the model allocator, d<=2. Named pipe: all 798 payload sequences of length <= 3 in both directions on real '
+             'requester threads + stream + a timed-out request with ids from the model allocator, d<=2. Named pipe: EVERY history of <= 7 operations (thorough 9) over {create end, send, recv, close} x 2 ends on real FIFOs against a reference model, each in a forked child with a watchdog; all 798 payload sequences of length <= 3 in both directions on real '
              'FIFOs; one real unix-socket run with 48 requests incl. a 2.4 MB payload.',
         note='kernel scheduling of the real FIFO / socket runs is not controlled',
         design_ref='DESIGN.md 4 C18'),
